@@ -31,6 +31,10 @@ EXHAUSTIVE = {"quick": False, "thorough": False}
 LITS = ["a", "ab", "x-y", "é", "10", "A"]
 GROUPS = ["<n>", "<n:int>", "<f:float>", "<w:word>", "<h:hex>", "<u:uuid>", "<r:re:[A-Z]+>", "<r:re:\\S+>",
           "<r:re:[A-F0-9]{2}>", "<w:WORD>", "<q:uint>", "<r:RE:[a-c]+>", "<r:re:\\d{2,3}>", "<k:re:(a|b)+>"]
+NEAR = [("rev", r"\d+", "int"), ("re", r"[a-z]+", "u1"), (":region", r"[a-z]{2}", "u2"), ("ref", r"-?\d+", "float"),
+        ("in", r"\d", "int"), ("integer", r"\d+", "int"), ("wor", r"\w", "u1"), ("hexa", r"[0-9a-f]+", "u2"),
+        ("uuid4", r"[0-9a-f]{4}", "u1"), ("floa", r"\d+\.\d+", "float"), ("Int", r"\d+", "u2"), ("r", r"\d+", "int"),
+        ("rea", r"\d+", "int")]
 RAWS = [r"/raw/\d+", r"/raw/(?P<id>\w+)", r"/raw/(\w+)/(\d+)?", r"^/an(ch)?$", r"/pre", r"/R/[A-Z]+\Z", r"/o/(a|ab)(c|bcd)(d*)"]
 METHODS = ["HEAD", "GET", "POST", "PUT", "DELETE", "TRACE", "OPTIONS", "CONNECT", "PATCH", "BREW", "get"]
 SEGS = ["a", "ab", "x-y", "é", "10", "A", "AB", "abc", "-12", "12.5", "12.", "0aF", "DE", "zz", "b a", "٣",
@@ -51,12 +55,34 @@ def rand_rule(rng):
     return rule
 
 
+def seg_for(rng, group):
+    """a segment for a rule group: mostly one its filter accepts"""
+    if rng.random() < 0.25:
+        return rng.choice(SEGS)
+    m = re.match(r"<\w+:(re:)?(.*)>$", group, re.I)
+    if not m:
+        return rng.choice(SEGS)
+    if m.group(1):
+        rx = m.group(2)
+    else:
+        known = {"int": r"-?\d+", "float": r"-?\d+(\.\d+)?", "word": r"\w+", "hex": r"[0-9a-fA-F]+", "uint": r"\d+"}
+        known.update({n.lstrip(":"): r for n, r, _ in NEAR})
+        rx = known.get(m.group(2))
+    if rx is None:
+        return rng.choice(SEGS)
+    try:
+        ok = [x for x in SEGS + ["7", "q", "ab12", "1.5", "0a0f"] if re.fullmatch(rx, x)]
+    except re.error:
+        ok = []
+    return rng.choice(ok) if ok else rng.choice(SEGS)
+
+
 def rand_path(rng, rules):
     r = rng.random()
     if rules and r < 0.75:
         rule = rng.choice(rules)
         # instantiate the rule, then perhaps spoil it
-        out = re.sub(r"<[^>]+>", lambda m: rng.choice(SEGS), rule) if "<" in rule else rule
+        out = re.sub(r"<[^>]+>", lambda m: seg_for(rng, m.group(0)), rule) if "<" in rule else rule
         if out.startswith("^") or "\\" in out or "(" in out:
             out = rng.choice(["/raw/12", "/raw/ab", "/raw/ab/", "/raw/ab/7", "/an", "/anch", "/anchx", "/pre", "/prefix",
                               "/R/AB", "/R/ab", "/R/AB\n", "/o/abcd", "/o/abd"])
@@ -118,6 +144,11 @@ def generate(rng, tier):
             ops.append("sf:%s:%s:%s" % (hx("uint"), hx(r"\d+"), "int"))
         if rng.random() < 0.15:
             ops.append("sf:%s:%s:u1" % (hx(":word"), hx(r"[a-z]+")))
+        # user filters whose names are near the built-in ones (prefixes, extensions, other case)
+        mine = []
+        for name, rx, cv in rng.sample(NEAR, rng.choice([0, 0, 1, 2, 3])):
+            ops.append("sf:%s:%s:%s" % (hx(name), hx(rx), cv))
+            mine.append(name.lstrip(":"))
         for i in range(rng.randrange(1, 7)):
             kind = rng.random()
             mask = rng.choice([2, 3, 4, 6, 7, 8, 511, 256, 1])
@@ -127,6 +158,8 @@ def generate(rng, tier):
                 rules.append(path)
             elif kind < 0.75:
                 rule = rand_rule(rng)
+                if mine and rng.random() < 0.7:
+                    rule += rng.choice(["/", "-"]) + "<z%d:%s>" % (i, rng.choice(mine))
                 ops.append("sr:%s:%d:%d" % (hx(rule), i + 1, mask))
                 rules.append(rule)
                 if rng.random() < 0.25:     # re-registration of the same pattern for further methods
@@ -223,7 +256,7 @@ def ref_dispatch(table, filters, method, path, bits):
             m = re.match(key, path)
         if m and bit in methods:
             if kind == "group":
-                args = tuple(cv(v) for (_, cv), v in zip(convs, m.groups()))
+                args = tuple(cv(m.group(name)) for name, cv in convs)   # the segment of that group, by name
                 return ("pattern", methods[bit], args)
             return ("pattern", methods[bit], m.groups())
     if docroot and bit in (1, 2):
